@@ -173,3 +173,140 @@ static inline v8u64 llvm_x86_avx512_mask_cvtpd2qq_512(v8f64 a, v8u64 src, u8 k, 
 static inline v16u32 llvm_x86_avx512_mask_cvtps2udq_512(v16f32 a, v16u32 src, u16 k, u32 rc) {
   v16u32 r; for (int i = 0; i < 16; ++i) r.e[i] = ((k >> i) & 1) ? LL_CVTTU32(nearbyintf(a.e[i])) : src.e[i]; return r; }
 #endif
+/* ---- byte / lane permutes ------------------------------------------------------------------------------------------------ */
+/* PSHUFB: per 128-bit lane; index bit 7 set -> 0, else low 4 bits select a byte of the same lane */
+#define MODEL_PSHUFB(name, VT, N) static inline VT name(VT a, VT b) { VT r; for (int i = 0; i < N; ++i) r.e[i] = (b.e[i] & 0x80) ? 0 : a.e[(i & ~15) + (b.e[i] & 15)]; return r; }
+#ifdef NEED_llvm_x86_ssse3_pshuf_b_128
+MODEL_PSHUFB(llvm_x86_ssse3_pshuf_b_128, v16u8, 16)
+#endif
+#ifdef NEED_llvm_x86_avx2_pshuf_b
+MODEL_PSHUFB(llvm_x86_avx2_pshuf_b, v32u8, 32)
+#endif
+#ifdef NEED_llvm_x86_avx512_pshuf_b_512
+MODEL_PSHUFB(llvm_x86_avx512_pshuf_b_512, v64u8, 64)
+#endif
+/* VPERM* with a full-width index vector: out[i] = a[idx[i] mod N] */
+#define MODEL_PERMVAR(name, VT, IT, N) static inline VT name(VT a, IT idx) { VT r; for (int i = 0; i < N; ++i) r.e[i] = a.e[idx.e[i] & (N - 1)]; return r; }
+#ifdef NEED_llvm_x86_avx2_permd
+MODEL_PERMVAR(llvm_x86_avx2_permd, v8u32, v8u32, 8)
+#endif
+#ifdef NEED_llvm_x86_avx2_permps
+MODEL_PERMVAR(llvm_x86_avx2_permps, v8f32, v8u32, 8)
+#endif
+#ifdef NEED_llvm_x86_avx512_permvar_qi_512
+MODEL_PERMVAR(llvm_x86_avx512_permvar_qi_512, v64u8, v64u8, 64)
+#endif
+#ifdef NEED_llvm_x86_avx512_permvar_hi_512
+MODEL_PERMVAR(llvm_x86_avx512_permvar_hi_512, v32u16, v32u16, 32)
+#endif
+#ifdef NEED_llvm_x86_avx512_permvar_si_512
+MODEL_PERMVAR(llvm_x86_avx512_permvar_si_512, v16u32, v16u32, 16)
+#endif
+#ifdef NEED_llvm_x86_avx512_permvar_sf_512
+MODEL_PERMVAR(llvm_x86_avx512_permvar_sf_512, v16f32, v16u32, 16)
+#endif
+#ifdef NEED_llvm_x86_avx512_permvar_di_512
+MODEL_PERMVAR(llvm_x86_avx512_permvar_di_512, v8u64, v8u64, 8)
+#endif
+#ifdef NEED_llvm_x86_avx512_permvar_df_512
+MODEL_PERMVAR(llvm_x86_avx512_permvar_df_512, v8f64, v8u64, 8)
+#endif
+#ifdef NEED_llvm_x86_avx512_permvar_di_256
+MODEL_PERMVAR(llvm_x86_avx512_permvar_di_256, v4u64, v4u64, 4)
+#endif
+#ifdef NEED_llvm_x86_avx512_permvar_df_256
+MODEL_PERMVAR(llvm_x86_avx512_permvar_df_256, v4f64, v4u64, 4)
+#endif
+/* VPERMILPS/PD with variable control: within each 128-bit lane */
+#ifdef NEED_llvm_x86_avx_vpermilvar_ps_256
+static inline v8f32 llvm_x86_avx_vpermilvar_ps_256(v8f32 a, v8u32 c) { v8f32 r; for (int i = 0; i < 8; ++i) r.e[i] = a.e[(i & ~3) + (c.e[i] & 3)]; return r; }
+#endif
+#ifdef NEED_llvm_x86_avx_vpermilvar_ps
+static inline v4f32 llvm_x86_avx_vpermilvar_ps(v4f32 a, v4u32 c) { v4f32 r; for (int i = 0; i < 4; ++i) r.e[i] = a.e[c.e[i] & 3]; return r; }
+#endif
+#ifdef NEED_llvm_x86_avx_vpermilvar_pd_256
+static inline v4f64 llvm_x86_avx_vpermilvar_pd_256(v4f64 a, v4u64 c) { v4f64 r; for (int i = 0; i < 4; ++i) r.e[i] = a.e[(i & ~1) + ((c.e[i] >> 1) & 1)]; return r; }
+#endif
+#ifdef NEED_llvm_x86_avx_vpermilvar_pd
+static inline v2f64 llvm_x86_avx_vpermilvar_pd(v2f64 a, v2u64 c) { v2f64 r; for (int i = 0; i < 2; ++i) r.e[i] = a.e[(c.e[i] >> 1) & 1]; return r; }
+#endif
+/* VPERMI2*: index selects from the concatenation (a, b) */
+#define MODEL_PERMI2(name, VT, IT, N) static inline VT name(VT a, IT idx, VT b) { VT r; for (int i = 0; i < N; ++i) r.e[i] = (idx.e[i] & N) ? b.e[idx.e[i] & (N - 1)] : a.e[idx.e[i] & (N - 1)]; return r; }
+#ifdef NEED_llvm_x86_avx512_vpermi2var_q_512
+MODEL_PERMI2(llvm_x86_avx512_vpermi2var_q_512, v8u64, v8u64, 8)
+#endif
+#ifdef NEED_llvm_x86_avx512_vpermi2var_d_512
+MODEL_PERMI2(llvm_x86_avx512_vpermi2var_d_512, v16u32, v16u32, 16)
+#endif
+#ifdef NEED_llvm_x86_avx512_vpermi2var_pd_512
+MODEL_PERMI2(llvm_x86_avx512_vpermi2var_pd_512, v8f64, v8u64, 8)
+#endif
+#ifdef NEED_llvm_x86_avx512_vpermi2var_ps_512
+MODEL_PERMI2(llvm_x86_avx512_vpermi2var_ps_512, v16f32, v16u32, 16)
+#endif
+/* VPCOMPRESS / VPEXPAND (register forms): compress packs the selected lanes to the low positions, the rest comes from src;
+ * expand places consecutive low lanes of a into the selected positions, the rest comes from src */
+#define MODEL_COMPRESS(name, VT, N, KT) static inline VT name(VT a, VT src, KT k) { VT r = src; int c = 0; for (int i = 0; i < N; ++i) if ((k >> i) & 1) { r.e[c] = a.e[i]; ++c; } return r; }
+#define MODEL_EXPAND(name, VT, N, KT) static inline VT name(VT a, VT src, KT k) { VT r = src; int c = 0; for (int i = 0; i < N; ++i) if ((k >> i) & 1) { r.e[i] = a.e[c]; ++c; } return r; }
+#ifdef NEED_llvm_x86_avx512_mask_compress_v8i64
+MODEL_COMPRESS(llvm_x86_avx512_mask_compress_v8i64, v8u64, 8, u64)
+#endif
+#ifdef NEED_llvm_x86_avx512_mask_compress_v16i32
+MODEL_COMPRESS(llvm_x86_avx512_mask_compress_v16i32, v16u32, 16, u64)
+#endif
+#ifdef NEED_llvm_x86_avx512_mask_compress_v8f64
+MODEL_COMPRESS(llvm_x86_avx512_mask_compress_v8f64, v8f64, 8, u64)
+#endif
+#ifdef NEED_llvm_x86_avx512_mask_compress_v16f32
+MODEL_COMPRESS(llvm_x86_avx512_mask_compress_v16f32, v16f32, 16, u64)
+#endif
+#ifdef NEED_llvm_x86_avx512_mask_compress_v64i8
+MODEL_COMPRESS(llvm_x86_avx512_mask_compress_v64i8, v64u8, 64, u64)
+#endif
+#ifdef NEED_llvm_x86_avx512_mask_compress_v32i16
+MODEL_COMPRESS(llvm_x86_avx512_mask_compress_v32i16, v32u16, 32, u64)
+#endif
+#ifdef NEED_llvm_x86_avx512_mask_expand_v8i64
+MODEL_EXPAND(llvm_x86_avx512_mask_expand_v8i64, v8u64, 8, u64)
+#endif
+#ifdef NEED_llvm_x86_avx512_mask_expand_v16i32
+MODEL_EXPAND(llvm_x86_avx512_mask_expand_v16i32, v16u32, 16, u64)
+#endif
+#ifdef NEED_llvm_x86_avx512_mask_expand_v8f64
+MODEL_EXPAND(llvm_x86_avx512_mask_expand_v8f64, v8f64, 8, u64)
+#endif
+#ifdef NEED_llvm_x86_avx512_mask_expand_v16f32
+MODEL_EXPAND(llvm_x86_avx512_mask_expand_v16f32, v16f32, 16, u64)
+#endif
+#ifdef NEED_llvm_x86_avx512_mask_expand_v64i8
+MODEL_EXPAND(llvm_x86_avx512_mask_expand_v64i8, v64u8, 64, u64)
+#endif
+#ifdef NEED_llvm_x86_avx512_mask_expand_v32i16
+MODEL_EXPAND(llvm_x86_avx512_mask_expand_v32i16, v32u16, 32, u64)
+#endif
+/* horizontal adds: pairs within each 128-bit lane, first operand then second */
+#ifdef NEED_llvm_x86_sse3_hadd_ps
+static inline v4f32 llvm_x86_sse3_hadd_ps(v4f32 a, v4f32 b) { v4f32 r = {{FADD_f32(a.e[0], a.e[1]), FADD_f32(a.e[2], a.e[3]), FADD_f32(b.e[0], b.e[1]), FADD_f32(b.e[2], b.e[3])}}; return r; }
+#endif
+#ifdef NEED_llvm_x86_sse3_hadd_pd
+static inline v2f64 llvm_x86_sse3_hadd_pd(v2f64 a, v2f64 b) { v2f64 r = {{FADD_f64(a.e[0], a.e[1]), FADD_f64(b.e[0], b.e[1])}}; return r; }
+#endif
+#ifdef NEED_llvm_x86_avx_hadd_ps_256
+static inline v8f32 llvm_x86_avx_hadd_ps_256(v8f32 a, v8f32 b) { v8f32 r = {{FADD_f32(a.e[0], a.e[1]), FADD_f32(a.e[2], a.e[3]), FADD_f32(b.e[0], b.e[1]), FADD_f32(b.e[2], b.e[3]),
+  FADD_f32(a.e[4], a.e[5]), FADD_f32(a.e[6], a.e[7]), FADD_f32(b.e[4], b.e[5]), FADD_f32(b.e[6], b.e[7])}}; return r; }
+#endif
+#ifdef NEED_llvm_x86_avx_hadd_pd_256
+static inline v4f64 llvm_x86_avx_hadd_pd_256(v4f64 a, v4f64 b) { v4f64 r = {{FADD_f64(a.e[0], a.e[1]), FADD_f64(b.e[0], b.e[1]), FADD_f64(a.e[2], a.e[3]), FADD_f64(b.e[2], b.e[3])}}; return r; }
+#endif
+#ifdef NEED_llvm_x86_ssse3_phadd_d_128
+static inline v4u32 llvm_x86_ssse3_phadd_d_128(v4u32 a, v4u32 b) { v4u32 r = {{a.e[0] + a.e[1], a.e[2] + a.e[3], b.e[0] + b.e[1], b.e[2] + b.e[3]}}; return r; }
+#endif
+#ifdef NEED_llvm_x86_ssse3_phadd_w_128
+static inline v8u16 llvm_x86_ssse3_phadd_w_128(v8u16 a, v8u16 b) { v8u16 r; for (int i = 0; i < 4; ++i) { r.e[i] = (u16)(a.e[2 * i] + a.e[2 * i + 1]); r.e[4 + i] = (u16)(b.e[2 * i] + b.e[2 * i + 1]); } return r; }
+#endif
+#ifdef NEED_llvm_x86_avx2_phadd_d
+static inline v8u32 llvm_x86_avx2_phadd_d(v8u32 a, v8u32 b) { v8u32 r = {{a.e[0] + a.e[1], a.e[2] + a.e[3], b.e[0] + b.e[1], b.e[2] + b.e[3], a.e[4] + a.e[5], a.e[6] + a.e[7], b.e[4] + b.e[5], b.e[6] + b.e[7]}}; return r; }
+#endif
+#ifdef NEED_llvm_x86_avx2_phadd_w
+static inline v16u16 llvm_x86_avx2_phadd_w(v16u16 a, v16u16 b) { v16u16 r; for (int l = 0; l < 2; ++l) for (int i = 0; i < 4; ++i) { r.e[8 * l + i] = (u16)(a.e[8 * l + 2 * i] + a.e[8 * l + 2 * i + 1]); r.e[8 * l + 4 + i] = (u16)(b.e[8 * l + 2 * i] + b.e[8 * l + 2 * i + 1]); } return r; }
+#endif
